@@ -60,6 +60,9 @@ struct Unit<T: Flt> {
     /// the chunk size is changed while the stream runs: two calls at the constructor's size, two
     /// at 3/10 of it, and so on (sinc types only) - "for every way of chunking the stream"
     dance: bool,
+    /// every call is handed input_frames_max() frames (when the signal has that many left): more
+    /// than the call needs whenever the need varies from call to call
+    generous: bool,
 }
 
 struct ToneOut {
@@ -73,7 +76,7 @@ struct ToneOut {
 
 impl<T: Flt> Unit<T> {
     fn new(cfg: &Cfg) -> Result<Self, String> {
-        Ok(Unit { cfg: cfg.clone(), r: cfg.build::<T>()?, dance: false })
+        Ok(Unit { cfg: cfg.clone(), r: cfg.build::<T>()?, dance: false, generous: false })
     }
 
     /// Resample x (after reset) and return the output.
@@ -97,8 +100,9 @@ impl<T: Flt> Unit<T> {
             if pos + need > x.len() {
                 break;
             }
+            let give = if self.generous { need.max(self.r.input_frames_max()).min(x.len() - pos) } else { need };
             ibuf[0].clear();
-            ibuf[0].extend(x[pos..pos + need].iter().map(|v| T::from64(*v)));
+            ibuf[0].extend(x[pos..pos + give].iter().map(|v| T::from64(*v)));
             let (i, o) = self.r.process_into_buffer(&ibuf, &mut obuf, None).map_err(|e| format!("{}", e))?;
             out.extend(obuf[0][..o].iter().map(|v| v.to64()));
             pos += i;
@@ -234,6 +238,7 @@ fn c01_unit<T: Flt>(acc: &mut Acc, cfg: &Cfg, edge: f64, beta_of: &dyn Fn(f64) -
 fn c01_unit_d<T: Flt>(acc: &mut Acc, cfg: &Cfg, edge: f64, beta_of: &dyn Fn(f64) -> f64, amp_tol: f64, tones: &[f64], journal: Option<&JournalFile>, meta: Value, dance: bool) -> Result<(), String> {
     let mut u = Unit::<T>::new(cfg)?;
     u.dance = dance;
+    u.generous = meta["generous_input"] == true;
     let a = 0.8;
     // "to single precision": measured f32 rounding noise peaks at 2^-19.5 of the amplitude (256 taps)
     let floor = if T::IS_F32 { 2f64.powi(-18) } else { 0.0 };
@@ -255,7 +260,7 @@ fn c01_unit_d<T: Flt>(acc: &mut Acc, cfg: &Cfg, edge: f64, beta_of: &dyn Fn(f64)
             acc.nontrivial += 1;
         }
         let beta = beta_of(PI * f).max(floor);
-        let point = format!("T={} tone at {}*passband edge (f={:.6} of input Nyquist){}", T::NAME, frac, f, if dance { ", chunk size changed every second call" } else { "" });
+        let point = format!("T={} tone at {}*passband edge (f={:.6} of input Nyquist){}{}", T::NAME, frac, f, if dance { ", chunk size changed every second call" } else { "" }, if u.generous { ", input_frames_max() frames handed to every call" } else { "" });
         let mut x = meta.clone();
         x["tone_frac"] = json!(frac);
         x["T"] = json!(T::NAME);
@@ -371,6 +376,7 @@ impl Check for C01 {
                         cfg.max_rel = 1.0;
                         let mut m = meta.clone();
                         m["chunk_dance"] = json!(true);
+                        m["generous_input"] = json!(true);
                         c01_unit_d::<f64>(&mut acc, &cfg, edge, &beta, amp_tol(window), &tones[tones.len() - 2..], journal, m, true)?;
                     }
                 }
@@ -398,6 +404,11 @@ impl Check for C01 {
                         let meta = json!({"family": "fft", "fft_in": fi, "fft_out": fo});
                         c01_unit::<f64>(&mut acc, &cfg, edge, &beta, 0.001, &tones, journal, meta.clone())?;
                         c01_unit::<f32>(&mut acc, &cfg, edge, &beta, 0.001, &tones, journal, meta.clone())?;
+                        // the same stream with input_frames_max() frames handed to every call
+                        // (longer than needed whenever the need varies: documented as allowed)
+                        let mut m = meta.clone();
+                        m["generous_input"] = json!(true);
+                        c01_unit::<f64>(&mut acc, &cfg, edge, &beta, 0.001, &tones[tones.len() - 1..], journal, m)?;
                     }
                 }
             }
